@@ -7,6 +7,7 @@ from props.c02 import edit as c02_edit
 
 PROPERTY_FILES = ["Builder/Properties_C05.v"]
 
+REBUILDING = ("script", "var_value", "class_script", "global_value", "var_list_del", "dep_env")
 FAULTS = ["kill-save", "kill-save", "kill-prune", "kill-invalidate", "fail-script", "kill-script"]
 
 
@@ -29,7 +30,9 @@ def unlock(w):
 def abort_build(w, desc, rng):
     """one aborted invocation; returns a description of what was injected and what happened"""
     kind = rng.choice(FAULTS)
-    roots = bc.roots_of(desc)
+    # with -j several steps are in flight when the invocation dies (Builder/Sched.v: partial_executions_keep_invariants)
+    par = rng.choice([[], [], ["-j", "4"], ["-j", "2", "-k"]])
+    roots = par + bc.roots_of(desc)
     if kind == "kill-save":
         k = rng.choice([1, 2, 3, 4, 5, 6, 8, 10, 13, 17, 25])
         rc, txt = bc.bob(w, ["dev"] + roots, crash_env={"BOBV_KILL_SAVE": str(k)})
@@ -42,11 +45,16 @@ def abort_build(w, desc, rng):
         rc, txt = bc.bob(w, ["dev"] + roots, crash_env={"BOBV_KILL_INVALIDATE": str(k)})
         what = {"fault": kind, "k": k}
     else:
-        fr = rng.choice(frags(desc) or ["none"])
+        # a fault in a script only fires if the step is re-executed: the roots are re-executed after almost every
+        # edit below them, a random fragment often is not (measured: 1 of 6 fired) -> prefer the roots' fragments
+        fs = frags(desc) or ["none"]
+        rootfs = [f for f in fs if f[:-1] in bc.roots_of(desc)]
+        fr = rng.choice(rootfs) if rootfs and rng.random() < 0.6 else rng.choice(fs)
         var = "BOBV_FAIL" if kind == "fail-script" else "BOBV_KILL"
         rc, txt = bc.bob(w, ["dev"] + roots, env={var: fr})
         what = {"fault": kind, "frag": fr}
     what["rc"] = rc
+    what["par"] = " ".join(par)
     what["aborted"] = rc != 0
     unlock(w)
     return what
@@ -65,7 +73,7 @@ def one_history(args):
             e = None
             for _ in range(40):
                 e = c02_edit(a, rng)
-                if e is not None and e[1] in ("script", "var_value", "class_script", "global_value", "var_list_del", "dep_env"):
+                if e is not None and e[1] in REBUILDING:
                     break
             b = e[0] if e else a
             first, second = (a, b) if rng.random() < 0.5 else (b, a)
@@ -108,7 +116,7 @@ def one_history(args):
                     shutil.rmtree(wk, ignore_errors=True)
             return rec
         else:
-            hist, kinds = bc.gen_history(rng, rng.randint(1, 3))
+            hist, kinds = bc.gen_history(rng, rng.randint(1, 3), prefer=REBUILDING)
             proj.write_project(hist[0], w)
             rc, _ = bc.bob(w, ["dev"] + bc.roots_of(hist[0]))
             rec["events"].append({"build": 0, "rc": rc})
@@ -174,6 +182,8 @@ def run(ctx):
         for e in rec["events"]:
             if "fault" in e:
                 ctx.count("fault:%s:%s" % (e["fault"], "aborted" if e.get("aborted") else "completed"))
+                if e.get("par"):
+                    ctx.count("aborted-invocation-with:%s" % e["par"])
         if ab:
             ctx.nontrivial((rec["seed"], rec["mode"]))
         for sig, what, detail in rec["violations"]:
